@@ -247,7 +247,7 @@ def load_known():
     return {"findings": [], "fixed": []}
 
 
-def write_replay(pid, engine, kind, detail, cmds, extra_header=()):
+def write_replay(pid, engine, kind, detail, cmds, extra_header=(), trace_id="replay"):
     os.makedirs(os.path.join(ROOT, "replay"), exist_ok=True)
     h = hashlib.sha256(("\n".join(cmds) + kind + detail).encode()).hexdigest()[:12]
     path = os.path.join(ROOT, "replay", f"{pid}-{engine}-{h}.trace")
@@ -258,7 +258,7 @@ def write_replay(pid, engine, kind, detail, cmds, extra_header=()):
         for l in extra_header:
             fh.write(f"# {l}\n")
         fh.write(f"# replay: ./check.py {pid} --replay {path}\n")
-        fh.write("T replay\n")
+        fh.write(f"T {trace_id}\n")
         for l in cmds:
             fh.write(l + "\n")
     return path
@@ -352,7 +352,7 @@ def main():
     dist, samples, rules, exh = {}, [], [], []
     for r in results:
         if "error" in r:
-            violations.append(("harness", r["engine"], f"{r['error']}: {r.get('harness_out','')[-600:]} {r.get('driver_err','')}", []))
+            violations.append(("harness", r["engine"], f"{r['error']}: {r.get('harness_out','')[-600:]} {r.get('driver_err','')}", [], "replay"))
             continue
         st = r["stats"]
         tot["traces"] += r["traces"]
@@ -371,14 +371,14 @@ def main():
             detail = (f"correspondence {r['engine']} broken: model and implementation differ\n"
                       f"trace={m.get('trace')} line={m.get('line')}\nimpl : {m.get('impl')}\nmodel: {m.get('model')}\n"
                       f"{m.get('why','')}\ntheorems of {','.join(modules)} no longer speak about this code path")
-            violations.append(("correspondence", r["engine"], detail, m.get("cmds", [])))
+            violations.append(("correspondence", r["engine"], detail, m.get("cmds", []), m.get("trace", "replay")))
         for o in r["oracle"]:
             kf = next((f for f in my_known if f.get("oracle_tag") and o["msg"].startswith("KNOWN[" + f["oracle_tag"] + "]")), None)
             if kf:
                 if kf["id"] not in known_hit:
                     known_hit.append(kf["id"])
                 continue
-            violations.append(("oracle", r["engine"], "property oracle failed on the implementation: " + o["msg"], o["cmds"]))
+            violations.append(("oracle", r["engine"], "property oracle failed on the implementation: " + o["msg"], o["cmds"], o["trace"]))
 
     # a broken proof obligation / tie without any failing input found
     out_lines = []
@@ -387,9 +387,9 @@ def main():
     concrete = [v for v in violations if v[3]]
     seen_paths = set()
     if concrete:
-        for kind, eng, detail, cmds in concrete[:5]:
+        for kind, eng, detail, cmds, tid in concrete[:5]:
             extra = ["broken obligations: " + "; ".join(broken)] if broken else []
-            path = write_replay(pid, eng, kind, detail, cmds, extra)
+            path = write_replay(pid, eng, kind, detail, cmds, extra, tid)
             if path not in seen_paths:
                 seen_paths.add(path)
                 out_lines.append(f"VIOLATION property={pid} replay={path}")
